@@ -39,7 +39,7 @@ type edit struct {
 var (
 	lockDirs  = []string{"internal", "pkg", "cdr/cdrFile", "cdr/cdrConvert"}
 	fileDirs  = []string{"cdr/cdrFile", "internal/cgf", "internal/sbi/processor"}
-	yieldDirs = []string{"internal/context", "internal/sbi/processor", "internal/abmf", "internal/rating", "internal/sbi"}
+	yieldDirs = []string{"internal/context", "internal/sbi/processor", "internal/abmf", "internal/rating", "internal/sbi", "internal/cgf"}
 )
 
 // the part of package os that the CDR file code may use; everything listed exists in rt
